@@ -15,6 +15,10 @@ Qed.
 Lemma to_sample_same m f z : to_sample m f f z = Ok z.
 Proof. destruct f; reflexivity. Qed.
 
+(* the diagonal, code and formula together: converting to the SAME format (the blanket identity impl) returns the value *)
+Lemma to_sample_same_format m f z : to_sample m f f z = Ok z /\ spec_conv f f z = z.
+Proof. split; [apply to_sample_same | apply spec_same]. Qed.
+
 (* every ordered pair (the 132 distinct ones and the 12 identities), both build profiles *)
 Lemma to_sample_correct_all m s d z : in_range s z -> to_sample m s d z = Ok (spec_conv s d z).
 Proof.
